@@ -102,6 +102,8 @@ class SimNet:
     def host_of(self, url):
         u = yarl.URL(url)
         h = u.host or ''
+        if h and h[0].isdigit():
+            return h, u
         return h.split('.')[0], u
 
     async def request(self, src, method, url, headers=None, body=b'', timeout=None):
